@@ -24,8 +24,10 @@ TRUSTED = [
     'modelled, not verified: genshi/util.py LRUCache and genshi/template/loader.py TemplateLoader.load / directory() (hand-written Lean models tied by correspondence)',
     'not modelled: os.path (join/dirname/normpath/isabs), os.stat / the file system (histories use a logical clock set with os.utime), open(), the template parsers (a parse is "content -> template or TemplateSyntaxError"), threading.RLock (depth counter only)',
     'the reads in/len/iter are checked to leave the structure untouched at every reached state instead of being enumerated inside sequences',
+    'string-level path model (Genshi/Model/LoaderPath.lean): posixpath normpath/join/dirname/isabs are modelled on character lists and compared with the standard library on seeded strings (stream path-functions); prefixed() and callables returning (filepath, filename, fileobj, uptodate) are model entries; package() is a callable with uptodate=None; the in-place rewrite of a file that is being read is driven by shadowing the name open in the loader module for one call (RealRun.load_rewrite) and lands between the time stamp and the first read',
 ]
 ASSUMPTIONS = [
+    'path model: POSIX path syntax; every directory named on a path exists and there are no symbolic links, so that open(p) and getmtime(p) look at normpath(p) (generator and validate() keep every directory chain inside the tree of existing directories)',
     'operations of the overridden interface only (__getitem__ __setitem__ __contains__ __len__ __iter__); the inherited dict methods are known finding C15-inherited-dict',
     'capacity is a non-negative int and is not changed after construction',
     'every modification of a file changes its mtime: to the next value of a logical clock (W, T) or to any value, older ones included, that differs from the file\'s current mtime and from every mtime the loader remembers for that file (WA; a different content under a remembered mtime is the inherent limit of reloading by modification time, theorem mtime_reuse_serves_stale); a modification during a load is a replacement (new file renamed over the name) of the file the load opens, landing before or right after the open() of directory() (history op LR); in-place rewrites of a file that is being read are not covered',
@@ -599,7 +601,7 @@ def path_history(cfg, ops, root):
         return {'case': case, 'what': 'op %d %s: %s' % (i, json.dumps(ops[i]), what), 'expected': expected, 'observed': observed}
     try:
         for i, op in enumerate(ops):
-            if op[0] != 'L':
+            if op[0] not in ('L', 'LW'):
                 run.fs_op(op)
                 ref.fs_op(op)
                 answers.append(Atom('U'))
@@ -617,11 +619,26 @@ def path_history(cfg, ops, root):
                     current = False
             from_cache = cached is not None and (not cfg['auto_reload'] or current)
             walk = ref.walk(op)
+            walk0 = walk          # the specification column of the model describes the state before the call
+            target = None
+            if op[0] == 'LW' and not from_cache and walk[0] == 'file':
+                # the file this load opens is rewritten in place while it is read: afterwards (and
+                # for the template class) it has the new content
+                target = posixpath.normpath(walk[1])
+                ref.fs_op(['W', target, op[7], op[8]])
+                walk = ref.walk(op)
+                stats['pathload:rewritten in place while read'] += 1
             isabs = posixpath.isabs(key) or bool(op[2] and posixpath.isabs(op[2]))
             n_inst, n_cb = len(run.inst_log), len(run.cb_log)
             utd_before = dict(run.loader._uptodate)
             map_before = dict((k, id(v.value)) for k, v in cache._dict.items())
-            kind, val = run.load(op)
+            if op[0] == 'LW':
+                kind, val, rewritten = run.load_rewrite(op)
+                if fail is None and (None if rewritten is None else run.model(os.path.normpath(rewritten))) != target:
+                    fail = bad(i, 'harness: the file rewritten during the load is the file found first on the search path',
+                               target, rewritten and run.model(rewritten))
+            else:
+                kind, val = run.load(op)
             d = run.describe(val) if kind == 'ok' else None
             stats['pathload:' + ('cached' if from_cache else walk[0])] += 1
             if '..' in key.split('/'):
@@ -671,12 +688,12 @@ def path_history(cfg, ops, root):
             res = [Atom('ok'), d] if kind == 'ok' else [Atom('err'), Atom(val)]
             if from_cache:
                 spec = Atom('cached')
-            elif walk[0] == 'file':
-                spec = [Atom('file'), walk[1], walk[2], walk[3], B(walk[4])]
+            elif walk0[0] == 'file':
+                spec = [Atom('file'), walk0[1], walk0[2], walk0[3], B(walk0[4])]
             else:
-                spec = Atom(walk[0])
+                spec = Atom(walk0[0])
             answers.append([res, key, run.cache_order(), len(run.cb_log), len(run.inst_log), run.lock_depth(),
-                            run.utd(realkey), spec])
+                            run.utd(realkey), spec] + ([N if target is None else target] if op[0] == 'LW' else []))
     finally:
         run.close()
     return fail, answers, stats
